@@ -22,10 +22,12 @@ NoPic == [w |-> 0, h |-> 0, tr |-> -1, pt |-> "-", q |-> 0, db |-> 0, y |-> <<>>
 VARIABLES l, phase,
           lastPic, refPic,      \* requirement-level decoder state
           src, pos, posKnown,   \* bytes given to the current reader, bits consumed, is pos known
+          pstart,               \* bit offset in the stream where the picture of the current decode call starts
           sor,                  \* decoder option: Sorenson mode
+          dead,                 \* the decoder did not return from a call (reported): the rest of its history is void
           dcoll,                \* a disposable picture carrying the reference's temporal reference was decoded
           kinds, quants, mvs, coef, g, rng      \* stage results of the decode call being replayed
-vars == <<l, phase, lastPic, refPic, src, pos, posKnown, sor, dcoll, kinds, quants, mvs, coef, g, rng>>
+vars == <<l, phase, lastPic, refPic, src, pos, posKnown, pstart, sor, dead, dcoll, kinds, quants, mvs, coef, g, rng>>
 E == Rec[l]
 Has(f) == f \in DOMAIN E
 Diag(cls, what, sig, detail) ==
@@ -34,14 +36,18 @@ Stat(k) == PrintT("DIAG " \o ToJson([l |-> l, cls |-> "STAT", what |-> "stat", s
 
 ClearStages == kinds' = <<>> /\ quants' = <<>> /\ mvs' = <<>> /\ coef' = <<>> /\ g' = <<>> /\ rng' = <<>>
 KeepStages == UNCHANGED <<kinds, quants, mvs, coef, g, rng>>
-KeepDecoder == UNCHANGED <<lastPic, refPic, sor, dcoll>>
+KeepDecoder == UNCHANGED <<lastPic, refPic, sor, dcoll, pstart, dead>>
 NextLine == l' = l + 1 /\ phase' = 0 /\ ClearStages
 
 (* ---------------------------------------------------------------- observations *)
 (* TLC has no string slicing: the driver also reports the class of the outcome *)
 RetClass == E.rc                                \* "ok" | "err" | "panic" | "timeout" | "died"
 PicOf(e) == [w |-> e.w, h |-> e.h, tr |-> e.hdr.tr, pt |-> e.hdr.pt, q |-> e.hdr.q, db |-> e.hdr.db,
-             y |-> e.y, cb |-> e.cb, cr |-> e.cr]
+             y |-> IF "y" \in DOMAIN e THEN e.y ELSE <<>>, cb |-> IF "cb" \in DOMAIN e THEN e.cb ELSE <<>>,
+             cr |-> IF "cr" \in DOMAIN e THEN e.cr ELSE <<>>]
+YLen == IF Has("y") THEN Len(E.y) ELSE E.ylen
+CLen == IF Has("cb") THEN Len(E.cb) ELSE E.clen
+CrLen == IF Has("cr") THEN Len(E.cr) ELSE E.clen
 ProbeAt(p) ==
     LET r == 8 * Len(src') - p IN
     IF r >= 24 THEN <<24, BitsAt(BitsOfBytes(SubSeq(src', (p \div 8) + 1, Min2((p \div 8) + 4, Len(src')))), (p % 8) + 1, 24)>>
@@ -65,14 +71,18 @@ LastObsOk(lp) ==
 New ==
     /\ phase = 0 /\ E.op = "new"
     /\ IF E.ret = "ok" THEN TRUE ELSE Diag("HARNESS", "driver-op-failed", "harness", E.ret)
-    /\ lastPic' = NoPic /\ refPic' = NoPic /\ src' = <<>> /\ pos' = 0 /\ posKnown' = TRUE /\ sor' = E.sor /\ dcoll' = FALSE
+    /\ lastPic' = NoPic /\ refPic' = NoPic /\ src' = <<>> /\ pos' = 0 /\ posKnown' = TRUE /\ sor' = E.sor /\ dcoll' = FALSE /\ pstart' = 0 /\ dead' = FALSE
     /\ NextLine
 NewReader ==
-    /\ phase = 0 /\ E.op = "newreader"
+    /\ phase = 0 /\ E.op = "newreader" /\ ~dead
     /\ IF E.ret = "ok" THEN TRUE ELSE Diag("HARNESS", "driver-op-failed", "harness", E.ret)
     /\ src' = <<>> /\ pos' = 0 /\ posKnown' = TRUE /\ KeepDecoder /\ NextLine
+AppendBytes ==      \* data arriving at the source without a decode call
+    /\ phase = 0 /\ E.op = "append" /\ ~dead
+    /\ IF E.ret = "ok" THEN TRUE ELSE Diag("HARNESS", "driver-op-failed", "harness", E.ret)
+    /\ src' = src \o E.bytes /\ UNCHANGED <<pos, posKnown>> /\ KeepDecoder /\ NextLine
 Cleanup ==
-    /\ phase = 0 /\ E.op = "cleanup"
+    /\ phase = 0 /\ E.op = "cleanup" /\ ~dead
     /\ src' = src
     /\ IF RetClass # "ok" THEN Diag("IMPL", "cleanup-outcome", "cleanup-no-return", E.ret)
        ELSE IF ~StateObsOk(lastPic, refPic) THEN Diag("IMPL", "cleanup-state", "cleanup-changes-reference-state",
@@ -85,7 +95,10 @@ Cleanup ==
 HasPic == Has("pic") /\ ~Has("opaque")      \* "opaque": the bytes are not claimed to be a valid picture
 P == E.pic
 D == Dims(P)
-PicStart == 8 * Len(src)        \* the picture's bytes start at the next byte boundary of the stream
+(* the picture's bytes start at the next byte boundary of the stream *)
+PicStart == IF Has("pre") THEN 8 * CeilDiv(pos, 8) ELSE 8 * Len(src)
+BytesInPlace == /\ (PicStart \div 8) + Len(E.bytes) <= Len(src')
+                /\ SubSeq(src', (PicStart \div 8) + 1, (PicStart \div 8) + Len(E.bytes)) = E.bytes
 (* a picture needs prediction if some macroblock is predicted, not coded, or missing (early end of data) *)
 NeedsRef == \/ Len(RealMbs(P)) < NMb(P)
             \/ \E i \in 1..Len(P.mbs) : P.mbs[i].k = "skip" \/ (P.mbs[i].k = "mb" /\ ~IsIntraT(P.mbs[i].t))
@@ -103,46 +116,54 @@ RejectedStep(sigPrefix) ==      \* validate "err" outcome: state unchanged; cont
        ELSE IF posKnown /\ E.probe # ProbeAt(pos)
        THEN Diag("IMPL", "failed-decode-moved-reader", sigPrefix \o "-moved-reader",
                  [ret |-> E.ret, got |-> E.probe, expected |-> ProbeAt(pos), pos |-> pos])
+       ELSE IF l > 1 /\ Has("ropt") /\ "ropt" \in DOMAIN Rec[l - 1] /\ E.ropt # Rec[l - 1].ropt
+       THEN Diag("IMPL", "failed-decode-changed-options", sigPrefix \o "-changed-carried-options", [ret |-> E.ret, got |-> E.ropt])
        ELSE TRUE
     /\ UNCHANGED <<pos, posKnown>> /\ KeepDecoder /\ NextLine
 DecodeStart ==
-    /\ phase = 0 /\ E.op = "decode"
-    /\ src' = src \o E.bytes
-    /\ IF RetClass \notin {"ok", "err"}
+    /\ phase = 0 /\ E.op = "decode" /\ ~dead
+    /\ src' = (IF Has("pre") THEN src ELSE src \o E.bytes)       \* "pre": the bytes were appended earlier
+    /\ IF RetClass = "skip"        \* outside the property's domain (declared size would not fit in memory): not executed
+       THEN UNCHANGED <<pos, posKnown>> /\ KeepDecoder /\ NextLine
+       ELSE IF RetClass \notin {"ok", "err"}
        THEN \* panic, abort, overflow trap, time-out: the call did not return a value (C01)
-            /\ Diag("IMPL", "decode-no-return", "decode-no-return", [ret |-> E.ret, mode |-> IF HasPic THEN "pixel" ELSE "opaque"])
-            /\ UNCHANGED <<pos>> /\ posKnown' = FALSE /\ KeepDecoder /\ NextLine
+            /\ Diag("IMPL", "decode-no-return", "decode-no-return-" \o (IF Has("site") THEN E.site ELSE RetClass),
+                    [ret |-> E.ret, mode |-> IF HasPic THEN "pixel" ELSE "opaque", why |-> IF Has("why") THEN E.why ELSE ""])
+            /\ UNCHANGED <<pos, lastPic, refPic, sor, dcoll, pstart>> /\ posKnown' = FALSE /\ dead' = TRUE /\ NextLine
        ELSE IF ~HasPic
        THEN \* opaque input: any outcome is allowed, but it must be consistent
             IF RetClass = "err" THEN RejectedStep("opaque-err")
             ELSE /\ IF Has("expect") /\ E.expect = "err"
                     THEN Diag("IMPL", "accepted-invalid-input", "accepted-" \o E.why, [why |-> E.why])
-                    ELSE IF ~(E.has_last /\ Len(E.y) = E.w * E.h /\ Len(E.cb) = ChW(E.w) * ChH(E.h) /\ Len(E.cr) = Len(E.cb)
-                         /\ E.cspr = ChW(E.w) /\ E.last = E.hdr.tr)
-                    THEN Diag("IMPL", "decoded-picture-shape", "decoded-picture-shape", [w |-> E.w, h |-> E.h, ylen |-> Len(E.y), clen |-> Len(E.cb), cspr |-> E.cspr])
+                    ELSE IF ~(E.has_last /\ YLen = E.w * E.h /\ CLen = ChW(E.w) * ChH(E.h) /\ CrLen = CLen
+                         /\ E.cspr = ChW(E.w) /\ E.last = E.hdr.tr /\ E.w >= 1 /\ E.h >= 1)
+                    THEN Diag("IMPL", "decoded-picture-shape", "decoded-picture-shape", [w |-> E.w, h |-> E.h, ylen |-> YLen, clen |-> CLen, cspr |-> E.cspr])
                     ELSE LET np == PicOf(E)
                              nr == IF E.hdr.pt = "D" THEN refPic ELSE np IN
                          IF ~StateObsOk(np, nr)
                          THEN Diag("IMPL", "reference-state", "opaque-reference-state", [last |-> E.last, ref |-> E.ref, keys |-> E.keys, pt |-> E.hdr.pt, prevRef |-> refPic.tr])
                          ELSE TRUE
                  /\ lastPic' = PicOf(E) /\ refPic' = (IF E.hdr.pt = "D" THEN refPic ELSE PicOf(E))
-                 /\ posKnown' = FALSE /\ UNCHANGED <<pos, sor, dcoll>> /\ NextLine
+                 /\ posKnown' = FALSE /\ UNCHANGED <<pos, sor, dcoll, pstart, dead>> /\ NextLine
+       ELSE IF Has("pre") /\ ~posKnown
+       THEN \* the stream position was lost by an earlier (reported) disagreement: nothing can be said about this call
+            UNCHANGED <<pos, posKnown>> /\ KeepDecoder /\ NextLine
        ELSE IF ~WellFormed(P) THEN Diag("HARNESS", "abstract-picture-ill-formed", "harness", P.tr) /\ UNCHANGED <<pos, posKnown>> /\ KeepDecoder /\ NextLine
-       ELSE IF BytesOfBits(PaddedBits(P)) # E.bytes
+       ELSE IF BytesOfBits(PaddedBits(P)) # E.bytes \/ ~BytesInPlace
        THEN Diag("HARNESS", "bytes-are-not-the-encoding-of-the-abstract-picture", "harness", [tr |-> P.tr]) /\ UNCHANGED <<pos, posKnown>> /\ KeepDecoder /\ NextLine
        ELSE IF ~ExpectOk
        THEN \* a picture needing prediction without a (matching) reference must be rejected
             IF RetClass = "ok"
             THEN /\ Diag("IMPL", "accepted-predicted-picture-without-reference", "accepted-without-reference", [pt |-> P.pt, tr |-> P.tr, refw |-> refPic.w])
                  /\ lastPic' = PicOf(E) /\ refPic' = (IF P.pt = "D" THEN refPic ELSE PicOf(E))
-                 /\ posKnown' = FALSE /\ UNCHANGED <<pos, sor, dcoll>> /\ NextLine
+                 /\ posKnown' = FALSE /\ UNCHANGED <<pos, sor, dcoll, pstart, dead>> /\ NextLine
             ELSE RejectedStep("no-reference")
        ELSE IF RetClass = "err"
        THEN /\ Diag("IMPL", "rejected-valid-picture",
                     "rejected-valid-" \o P.hk \o "-" \o P.pt \o "-picture",
                     [ret |-> E.ret, tr |-> P.tr, pt |-> P.pt, w |-> D[1], h |-> D[2]])
-            /\ UNCHANGED <<pos, posKnown>> /\ KeepDecoder /\ NextLine
-       ELSE /\ phase' = 1 /\ l' = l /\ UNCHANGED <<pos, posKnown>> /\ KeepDecoder /\ KeepStages
+            /\ posKnown' = (IF Has("pre") THEN FALSE ELSE posKnown) /\ UNCHANGED pos /\ KeepDecoder /\ NextLine
+       ELSE /\ phase' = 1 /\ l' = l /\ pstart' = PicStart /\ UNCHANGED <<pos, posKnown, lastPic, refPic, sor, dcoll, dead>> /\ KeepStages
 
 (* ---------------------------------------------------------------- decode: stages *)
 Real == RealMbs(P)
@@ -197,7 +218,7 @@ Compare ==
     /\ phase = 4
     /\ src' = src /\ sor' = sor
     /\ LET np == PicOf(E)
-           endPos == PicStart - 8 * Len(E.bytes) + Len(PictureBits(P))      \* src already includes E.bytes
+           endPos == pstart + Len(PictureBits(P))
        IN
        /\ IF ~(E.has_last /\ E.w = W /\ E.h = H /\ Len(E.y) = W * H /\ Len(E.cb) = ChW(W) * ChH(H) /\ Len(E.cr) = ChW(W) * ChH(H) /\ E.cspr = ChW(W))
           THEN Diag("IMPL", "decoded-picture-shape", "decoded-picture-shape",
@@ -227,16 +248,17 @@ Compare ==
        \* adopt what the decoder really holds (tolerated +-1 differences must not snowball)
        /\ lastPic' = np /\ refPic' = NewRef(np)
        /\ dcoll' = (IF P.pt = "D" THEN (dcoll \/ P.tr = refPic.tr) ELSE FALSE)
-       /\ pos' = endPos /\ posKnown' = TRUE
+       /\ pos' = endPos /\ posKnown' = TRUE /\ pstart' = pstart /\ dead' = dead
     /\ NextLine
 
-Unknown == phase = 0 /\ E.op \notin {"new", "newreader", "cleanup", "decode"} /\ Diag("HARNESS", "unknown-op", "harness", E.op)
+SkipDead == phase = 0 /\ dead /\ E.op # "new" /\ UNCHANGED <<src, pos, posKnown>> /\ KeepDecoder /\ NextLine
+Unknown == phase = 0 /\ ~dead /\ E.op \notin {"new", "newreader", "append", "cleanup", "decode"} /\ Diag("HARNESS", "unknown-op", "harness", E.op)
            /\ UNCHANGED <<src, pos, posKnown>> /\ KeepDecoder /\ NextLine
 
-Init == /\ l = 1 /\ phase = 0 /\ lastPic = NoPic /\ refPic = NoPic /\ src = <<>> /\ pos = 0 /\ posKnown = TRUE
-        /\ sor = TRUE /\ dcoll = FALSE
+Init == /\ l = 1 /\ phase = 0 /\ lastPic = NoPic /\ refPic = NoPic /\ src = <<>> /\ pos = 0 /\ posKnown = TRUE /\ pstart = 0
+        /\ sor = TRUE /\ dcoll = FALSE /\ dead = FALSE
         /\ kinds = <<>> /\ quants = <<>> /\ mvs = <<>> /\ coef = <<>> /\ g = <<>> /\ rng = <<>>
-Next == l <= Len(Rec) /\ (New \/ NewReader \/ Cleanup \/ DecodeStart \/ Parse \/ Pass1Stage \/ Pass2Stage \/ Compare \/ Unknown)
+Next == l <= Len(Rec) /\ (New \/ NewReader \/ AppendBytes \/ Cleanup \/ DecodeStart \/ Parse \/ Pass1Stage \/ Pass2Stage \/ Compare \/ SkipDead \/ Unknown)
 Spec == Init /\ [][Next]_vars
 Done == l = Len(Rec) + 1 => PrintT("CONSUMED " \o ToString(l - 1) \o " OF " \o ToString(Len(Rec)))
 =============================================================================
